@@ -182,9 +182,13 @@ func runC14(r *Report, rng *rand.Rand, thorough bool) {
 									warm = rng.Intn(3)
 								}
 								r.Dist[fmt.Sprintf("earlier_requests_on_the_handler=%d", warm)]++
-								id := fmt.Sprintf("%s/%s/%d/%d/%d/%d/%v/w%d", v.name, rq.op, n, short, sn, sshort, wopts, warm)
+								// half of the servers are mounted with an error handler of the caller's next to the middlewares (the
+								// options object carries both): the chain is the same
+								errh := rng.Intn(2) == 0
+								r.Dist[fmt.Sprintf("custom_error_handler_next_to_middlewares=%v", errh)]++
+								id := fmt.Sprintf("%s/%s/%d/%d/%d/%d/%v/w%d/e%v", v.name, rq.op, n, short, sn, sshort, wopts, warm, errh)
 								scenarios = append(scenarios, map[string]any{"id": id, "pkg": v.name,
-									"opts": map[string]any{"middlewares": n, "short_circuit": short, "strict_middlewares": sn, "strict_short_circuit": sshort, "strict_with_options": wopts, "warmup": warm},
+									"opts": map[string]any{"middlewares": n, "short_circuit": short, "strict_middlewares": sn, "strict_short_circuit": sshort, "strict_with_options": wopts, "warmup": warm, "error_handler": errh},
 									"req":  map[string]any{"method": rq.method, "target": rq.target, "header": rq.header, "body": rq.body}})
 								metas[id] = meta{v, rq, n, short, sn, sshort, warm}
 								if n > 0 && short == -1 && sshort == -1 && (v.fw == "gin" || v.fw == "chi" || v.fw == "gorilla" || v.fw == "stdhttp") && (thorough || sn == 0) {
@@ -192,7 +196,7 @@ func runC14(r *Report, rng *rand.Rand, thorough bool) {
 									k := 1 + rng.Intn(n)
 									id2 := id + fmt.Sprintf("/writes%d", k)
 									scenarios = append(scenarios, map[string]any{"id": id2, "pkg": v.name,
-										"opts": map[string]any{"middlewares": n, "short_circuit": short, "strict_middlewares": sn, "strict_short_circuit": sshort, "strict_with_options": wopts, "warmup": warm, "mw_writes": k},
+										"opts": map[string]any{"middlewares": n, "short_circuit": short, "strict_middlewares": sn, "strict_short_circuit": sshort, "strict_with_options": wopts, "warmup": warm, "mw_writes": k, "error_handler": errh},
 										"req":  map[string]any{"method": rq.method, "target": rq.target, "header": rq.header, "body": rq.body}})
 									metas[id2] = meta{v, rq, n, short, sn, sshort, warm}
 									r.Dist["middleware_that_writes_and_passes_on"]++
@@ -217,6 +221,10 @@ func runC14(r *Report, rng *rand.Rand, thorough bool) {
 	hcases := NewCases("cases_C14_history", "From V Require Import Model.Chain Corr.Eval.",
 		"flavour * bool * list mw * option (list mw) * nat * list event", "mismatches_chain_hist")
 	defer hcases.WriteTo(r)
+	// the server mounted from an options value that carries the middlewares next to an error handler of the caller's
+	ocases := NewCases("cases_C14_options", "From V Require Import Model.Chain Corr.Eval.",
+		"flavour * bool * list mw * bool * option (list mw) * list event", "mismatches_chain_opts")
+	defer ocases.WriteTo(r)
 	// gin without a strict layer: middlewares that pass, abort, or write to the response and pass
 	gcases := NewCases("cases_C14_gin", "From V Require Import Model.Chain Corr.Eval.", "list gmw * list event", "mismatches_gin_writes")
 	defer gcases.WriteTo(r)
@@ -243,6 +251,11 @@ func runC14(r *Report, rng *rand.Rand, thorough bool) {
 			strictTerm = "(Some " + coqMws(m.sn, m.sshort) + ")"
 		}
 		if m.warm == 0 {
+			errh := false
+			if o, ok := sc["opts"].(map[string]any); ok {
+				errh, _ = o["error_handler"].(bool)
+			}
+			ocases.Add(fmt.Sprintf("(%s, %v, %s, %v, %s, %s)", coqFlavour[m.v.fw], m.v.ftl, coqMws(m.n, m.short), errh, strictTerm, tr), replay)
 			cases.Add(fmt.Sprintf("(%s, %v, %s, %s, %s)", coqFlavour[m.v.fw], m.v.ftl, coqMws(m.n, m.short), strictTerm, tr), replay)
 		} else {
 			hcases.Add(fmt.Sprintf("(%s, %v, %s, %s, %d, %s)", coqFlavour[m.v.fw], m.v.ftl, coqMws(m.n, m.short), strictTerm, m.warm, tr), replay)
@@ -309,5 +322,5 @@ func runC14(r *Report, rng *rand.Rand, thorough bool) {
 	}
 	cases.WriteTo(r)
 	r.Exhaustive = thorough
-	r.Rule = "generated servers for 7 frameworks x {plain, strict} (+ first-to-last flag variants for chi, gorilla, std-http, plain and strict) compiled and served in process; every operation shape (no parameters, path / query / header parameters, body, security) x 0-3 per-operation middlewares x every short-circuit position x 0-2 strict middlewares x every strict short-circuit position x both strict constructors of the net/http flavours (NewStrictHandler, NewStrictHandlerWithOptions) x (gin and the net/http flavours) one of the middlewares sending the response header itself before passing on x the observed request being the first, second or third served by the mounted handler (thorough: the whole product; quick: a third of the strict x per-operation combinations); trace of recording middlewares and stub handler compared with the model in Coq and with the documented order; non-trivial = at least one middleware installed"
+	r.Rule = "generated servers for 7 frameworks x {plain, strict} (+ first-to-last flag variants for chi, gorilla, std-http, plain and strict) compiled and served in process; every operation shape (no parameters, path / query / header parameters, body, security) x 0-3 per-operation middlewares x every short-circuit position x 0-2 strict middlewares x every strict short-circuit position x both strict constructors of the net/http flavours (NewStrictHandler, NewStrictHandlerWithOptions) x (gin and the net/http flavours) one of the middlewares sending the response header itself before passing on x with and without an error handler of the caller's in the same options object x the observed request being the first, second or third served by the mounted handler (thorough: the whole product; quick: a third of the strict x per-operation combinations); trace of recording middlewares and stub handler compared with the model in Coq and with the documented order; non-trivial = at least one middleware installed"
 }
